@@ -48,6 +48,27 @@ func runC07(w *World) {
 	}
 	p := s.P
 	e := s.E
+	// sometimes the remote had an earlier session under ANOTHER identifier (it was
+	// restarted with a new router id) whose dominance is the opposite: nothing
+	// learnt from that session may leak into the collision
+	if w.Chance(1, 4, "prior-other-id") {
+		realID := p.Speaker.ID
+		if dominant {
+			p.Speaker.ID = L + 7
+		} else {
+			p.Speaker.ID = L - 3
+		}
+		if s.PriorSession(w) {
+			w.Probe("prior-session-under-another-identifier")
+		}
+		p.Speaker.ID = realID
+		for _, d := range p.Site.DialList() {
+			if d.Returned {
+				d.Taken = true
+			}
+		}
+	}
+	nest0, nclose0 := p.Plug.NEst, p.Plug.NClose
 	sample := func(k string, v any) { w.Sample[k] = v }
 	sample("clause", clause)
 	sample("ids", fmt.Sprintf("local %s AS%d, remote %s AS%d, local dominant=%v", localID, localAS, U32ToIP(R), remoteAS, dominant))
@@ -82,7 +103,7 @@ func runC07(w *World) {
 		n := p.Plug.NUpd
 		surv.SendSeg(MkFrame(MsgUpdate, []byte{0, 0, 0, 7}))
 		w.Quiesce()
-		if p.Plug.NUpd != n+1 || p.Plug.NEst != 1 || !p.Plug.IsUp() {
+		if p.Plug.NUpd != n+1 || p.Plug.NEst != nest0+1 || !p.Plug.IsUp() {
 			w.Violate("C07/survivor-not-usable/"+clause, "after resolution the surviving connection %s does not carry the session: OnEstablished count %d, callback state %s, handler calls %d->%d", surv, p.Plug.NEst, p.Plug.StName(), n, p.Plug.NUpd)
 			return
 		}
@@ -264,7 +285,7 @@ func runC07(w *World) {
 				w.Violate("C07/down-race/first-not-closed", "%s: the connection that failed was not closed by corebgp", cell)
 				return
 			}
-			if p.Plug.NEst != 0 {
+			if p.Plug.NEst != nest0 {
 				w.Violate("C07/collision/established-without-keepalive", "a session was reported Established although the remote sent no KEEPALIVE")
 				return
 			}
@@ -279,7 +300,7 @@ func runC07(w *World) {
 			}
 			second.SendSeg(KeepaliveFrame())
 			w.Quiesce()
-			if p.Plug.NEst != 1 || !p.Plug.IsUp() {
+			if p.Plug.NEst != nest0+1 || !p.Plug.IsUp() {
 				w.Violate("C07/down-race/survivor-not-established", "%s: the surviving connection %s did not become Established on the remote's KEEPALIVE (OnEstablished count %d, closed=%v, frames %s)", cell, second, p.Plug.NEst, second.LocalClosed(), descFrames(second.AllFrames()))
 				return
 			}
@@ -305,15 +326,15 @@ func runC07(w *World) {
 			} else {
 				w.Probe("race:second-survived")
 			}
-			if p.Plug.NEst > 1 {
+			if p.Plug.NEst > nest0+1 {
 				w.Violate("C07/race/two-established", "two sessions established")
 				return
 			}
-			if p.Plug.NEst == 0 {
+			if p.Plug.NEst == nest0 {
 				alive.SendSeg(KeepaliveFrame())
 				w.Quiesce()
 			}
-			if p.Plug.NEst != 1 || !p.Plug.IsUp() || alive.LocalClosed() {
+			if p.Plug.NEst != nest0+1 || !p.Plug.IsUp() || alive.LocalClosed() {
 				w.Violate("C07/race/not-established", "%s: the surviving connection %s did not become Established (OnEstablished count %d, closed=%v, frames %s)", cell, alive, p.Plug.NEst, alive.LocalClosed(), descFrames(alive.AllFrames()))
 				return
 			}
@@ -321,7 +342,7 @@ func runC07(w *World) {
 			return
 		}
 		// clause A: the dominance rule decides, whichever was second
-		if p.Plug.NEst != 0 {
+		if p.Plug.NEst != nest0 {
 			w.Violate("C07/collision/established-without-keepalive", "a session was reported Established although the remote sent no KEEPALIVE")
 			return
 		}
@@ -340,7 +361,7 @@ func runC07(w *World) {
 		}
 		surv.SendSeg(KeepaliveFrame())
 		w.Quiesce()
-		if p.Plug.NEst != 1 {
+		if p.Plug.NEst != nest0+1 {
 			w.Violate("C07/collision/survivor-not-established/"+cell, "the surviving connection did not become Established on the remote's KEEPALIVE (frames %s, closed=%v)", descFrames(surv.AllFrames()), surv.LocalClosed())
 			return
 		}
@@ -365,7 +386,7 @@ func runC07(w *World) {
 			w.Violate("C07/established-kept/new-connection-not-closed/B1", "an inbound connection arriving while the outbound one is Established was not closed (frames %s)", descFrames(I.AllFrames()))
 			return
 		}
-		if !untouchedSince(O, n) || p.Plug.NClose != 0 {
+		if !untouchedSince(O, n) || p.Plug.NClose != nclose0 {
 			w.Violate("C07/established-kept/established-disturbed/B1", "the Established connection was disturbed: %s closed=%v OnClose=%d", descFrames(NewFrames(O, n)), O.LocalClosed(), p.Plug.NClose)
 			return
 		}
@@ -410,7 +431,7 @@ func runC07(w *World) {
 				}
 			}
 		}
-		if !untouchedSince(I, n) || p.Plug.NClose != 0 || p.Plug.NEst != 1 {
+		if !untouchedSince(I, n) || p.Plug.NClose != nclose0 || p.Plug.NEst != nest0+1 {
 			w.Violate("C07/established-kept/established-disturbed/"+clause, "the Established inbound connection was disturbed: %s closed=%v OnClose=%d", descFrames(NewFrames(I, n)), I.LocalClosed(), p.Plug.NClose)
 			return
 		}
@@ -443,7 +464,7 @@ func runC07(w *World) {
 			w.Violate("C07/established-kept/other-not-ceased/B4", "the inbound connection (OpenSent, OPEN already sent) must get a Cease and be closed once the outbound one is Established; got %s closed=%v", descFrames(I.AllFrames()), I.LocalClosed())
 			return
 		}
-		if O.LocalClosed() || p.Plug.NClose != 0 || p.Plug.NEst != 1 {
+		if O.LocalClosed() || p.Plug.NClose != nclose0 || p.Plug.NEst != nest0+1 {
 			w.Violate("C07/established-kept/established-disturbed/B4", "the Established outbound connection was disturbed")
 			return
 		}
